@@ -81,7 +81,7 @@ def _fn_case(draw):
 
 @st.composite
 def _e2e_case(draw):
-    prof = S.profile(max_methods=3, max_services=2, p_http=0.4, p_sig=0.1, p_routing=0.0, p_paged=0.1, p_lro=0.1, p_comment=0.02,
+    prof = S.profile(max_methods=3, max_services=2, p_http=0.4, p_sig=0.1, p_routing=0.0, p_paged=0.1, p_lro=0.35, p_comment=0.02,
                      max_messages=5, max_fields=4, p_resource=0.8, rich_patterns=True, max_files=2, file_level_resources=True)
     api = draw(S.apis(prof))
     opts = {"params": ["autogen-snippets=False"], "snippets": False, "transport": "grpc"}
@@ -109,7 +109,7 @@ def evidence_extra(rec, tier):
 
 def strategy(tier):
     # about one end-to-end library per 120 function-level cases (one_of would merge identical branches)
-    return st.integers(0, 120).flatmap(lambda i: _e2e_case() if i == 0 else _fn_case())
+    return st.integers(0, 80).flatmap(lambda i: _e2e_case() if i == 0 else _fn_case())
 
 
 def mutate(case, built):
